@@ -2733,6 +2733,12 @@ static Node *cast(Token **rest, Token *tok) {
     // type cast
     Node *node = new_cast(cast(rest, tok), ty);
     node->tok = start;
+
+    // The size of a variable length array type is computed where the
+    // type is declared; a type name in a cast has no such place.
+    for (Type *t = ty; t; t = t->base)
+      if (t->kind == TY_VLA && !t->vla_size)
+        error_tok(start, "cast to a variable length array type is not supported");
     return node;
   }
 
